@@ -256,6 +256,10 @@ def hx2(F, R):
                     c = t["callee"]
                     if c.get("local") and c.get("name") in ("bytes", "len", "print", "is_empty", "to_vec") and "Hex" in c.get("path", ""):
                         uses = True
+                    # delegation to another encapsulated view of the same value (Debug -> Display, eq -> eq of bytes, ...)
+                    if c.get("local") and c.get("name") in ("fmt", "eq", "to_string", "cmp", "hash") and \
+                            "Hex" in (c.get("path", "") + c.get("gargs", "")) and c.get("path") != bb.path:
+                        uses = True
             if uses:
                 R.ok("HX2", b.where(), "%s reads the value only through bytes()/len()/print()" % label)
             else:
